@@ -316,16 +316,23 @@ public:
                       unsigned numImplicitInputs) override {
     StringRef name(nameTok.start, nameTok.length);
 
-    // Resolve the rule.
-    auto it = getCurrentScope().getRules().find(name);
-    Rule* rule;
-    if (it == getCurrentScope().getRules().end()) {
+    // Resolve the rule. A file loaded with "subninja" may use the rules of the
+    // files that include it (and the built-in "phony" rule, which lives in the
+    // root scope), so search the enclosing scopes as well.
+    Rule* rule = nullptr;
+    for (const Scope* scope = &getCurrentScope(); scope != nullptr;
+         scope = scope->getParent()) {
+      auto it = scope->getRules().find(name);
+      if (it != scope->getRules().end()) {
+        rule = it->second;
+        break;
+      }
+    }
+    if (rule == nullptr) {
       error("unknown rule", nameTok);
 
       // Ensure we always have a rule for each command.
       rule = manifest->getPhonyRule();
-    } else {
-      rule = it->second;
     }
 
     // Resolve all of the inputs and outputs.
